@@ -490,6 +490,10 @@ def run(facts, rep, tier):
     rep.rule("C09-R7", "= C10-R8: extract / inline render both notes with the configured markdown options (one value reaches the database and the action context).")
     from . import options
     options.rule_one_options(facts, rep, "C09-R7")
+    rep.rule("C09-R8", "An absent note is an absent note: no node id obtained from a lookup is defaulted to a constant (0 is the first note's root) - the inline actions on a dangling "
+             "reference must fail, not copy and delete another note.")
+    from . import ids
+    ids.rule_no_default_ids(facts, rep, "C09-R8")
 
 class _Sub:
     """Forwards to a Report but keeps only instances located in the refactoring actions."""
